@@ -29,7 +29,7 @@ std::vector<double> interior_nudged(TasmanianSparseGrid const &g, std::vector<do
 //   singular-basis-on-loaded-points : M is singular to working precision - no interpolant exists on the accepted point set
 //   iterative-solver-not-converged  : M is well conditioned and a dense solve reproduces the data, the library's coefficients have a large residual
 //   "" (anything else, e.g. coefficients all zero or not finite, or coefficients that solve the system but evaluation differs)
-static std::string wavelet_failure_class(TasmanianSparseGrid const &g){
+std::string wavelet_failure_class(TasmanianSparseGrid const &g){
     int n = g.getNumLoaded(), m = g.getNumOutputs();
     if (!g.isWavelet() || n == 0 || n > 1500 || g.isSetConformalTransformASIN()) return "";
     std::vector<double> x = g.getLoadedPoints(), M;
@@ -64,6 +64,7 @@ static std::string wavelet_failure_class(TasmanianSparseGrid const &g){
     }
     if (getenv("VF_TRACE")) fprintf(stderr, "  wavelet class: n=%d pmin=%g pmax=%g res_lib=%g vmax=%g\n", n, pmin, pmax, res_lib, vmax);
     if (pmin <= 1e-10 * pmax) return "singular-basis-on-loaded-points";
+    if (pmin <= 1e-3 * pmax) return "ill-conditioned-basis-on-loaded-points"; // nearly dependent basis functions: pivot ratio of the pivoted dense LU below 1e-3
     // dense solve for output 0 and its residual
     std::vector<double> b((size_t) n);
     for(int i=0; i<n; i++) b[(size_t) i] = v[(size_t) i * (size_t) m];
@@ -74,6 +75,43 @@ static std::string wavelet_failure_class(TasmanianSparseGrid const &g){
     for(int i=0; i<n; i++){ double sum = 0.0; for(int j=0; j<n; j++) sum += M[(size_t) i * (size_t) n + (size_t) j] * b[(size_t) j]; res_dense = std::max(res_dense, std::fabs(sum - v[(size_t) i * (size_t) m])); }
     if (getenv("VF_TRACE")) fprintf(stderr, "  wavelet class: res_dense=%g\n", res_dense);
     if (res_dense <= 1e-9 * (vmax + 1e-300) && res_lib > 1e-7 * (vmax + 1e-300)) return "iterative-solver-not-converged";
+    return "";
+}
+
+std::string wavelet_weights_failure_class(TasmanianSparseGrid const &g, std::vector<double> const &xq){
+    int n = g.getNumLoaded();
+    if (!g.isWavelet() || n == 0 || n > 1500 || g.isSetConformalTransformASIN()) return "";
+    std::vector<double> x = g.getLoadedPoints(), M, phi;
+    g.evaluateHierarchicalFunctions(x, M);
+    g.evaluateHierarchicalFunctions(xq, phi);
+    if (M.size() != (size_t) n * (size_t) n || phi.size() != (size_t) n) return "";
+    std::vector<double> w = g.getInterpolationWeights(xq);
+    double pm = 0.0, res_lib = 0.0; bool finite = true;
+    for(double t : phi) pm = std::max(pm, std::fabs(t));
+    for(double t : w) if (!std::isfinite(t)) finite = false;
+    if (!finite) return "";
+    for(int j=0; j<n; j++){ double sum = 0.0; for(int i=0; i<n; i++) sum += w[(size_t) i] * M[(size_t) i * (size_t) n + (size_t) j]; res_lib = std::max(res_lib, std::fabs(sum - phi[(size_t) j])); }
+    // dense LU of the transposed matrix
+    std::vector<double> A((size_t) n * (size_t) n);
+    for(int i=0; i<n; i++) for(int j=0; j<n; j++) A[(size_t) j * n + i] = M[(size_t) i * n + j];
+    std::vector<int> piv((size_t) n); double pmin = 1e300, pmax = 0.0;
+    for(int k=0; k<n; k++){
+        int p = k; for(int i=k+1; i<n; i++) if (std::fabs(A[(size_t) i * n + k]) > std::fabs(A[(size_t) p * n + k])) p = i;
+        piv[(size_t) k] = p;
+        if (p != k) for(int j=0; j<n; j++) std::swap(A[(size_t) k * n + j], A[(size_t) p * n + j]);
+        double dg = std::fabs(A[(size_t) k * n + k]); pmin = std::min(pmin, dg); pmax = std::max(pmax, dg);
+        if (dg == 0.0) continue;
+        for(int i=k+1; i<n; i++){ double l = A[(size_t) i * n + k] / A[(size_t) k * n + k]; A[(size_t) i * n + k] = l; if (l != 0.0) for(int j=k+1; j<n; j++) A[(size_t) i * n + j] -= l * A[(size_t) k * n + j]; }
+    }
+    if (pmin <= 1e-10 * pmax) return "singular-basis-on-loaded-points";
+    if (pmin <= 1e-3 * pmax) return "ill-conditioned-basis-on-loaded-points"; // nearly dependent basis functions: pivot ratio of the pivoted dense LU below 1e-3
+    std::vector<double> b = phi;
+    for(int k=0; k<n; k++) std::swap(b[(size_t) k], b[(size_t) piv[(size_t) k]]);
+    for(int k=0; k<n; k++) for(int i=k+1; i<n; i++) b[(size_t) i] -= A[(size_t) i * n + k] * b[(size_t) k];
+    for(int k=n-1; k>=0; k--){ for(int j=k+1; j<n; j++) b[(size_t) k] -= A[(size_t) k * n + j] * b[(size_t) j]; b[(size_t) k] /= A[(size_t) k * n + k]; }
+    double res_dense = 0.0;
+    for(int j=0; j<n; j++){ double sum = 0.0; for(int i=0; i<n; i++) sum += b[(size_t) i] * M[(size_t) i * (size_t) n + (size_t) j]; res_dense = std::max(res_dense, std::fabs(sum - phi[(size_t) j])); }
+    if (res_dense <= 1e-9 * (pm + 1e-300) && res_lib > 1e-7 * (pm + 1e-300)) return "iterative-solver-not-converged";
     return "";
 }
 
